@@ -133,6 +133,17 @@ class SymFactory:
             o.fields[k] = v
         return o
 
+    def new_any(self, name, classes, fields):
+        """an object whose class is one of `classes` (unknown which); only the common fields are given.  Supported uses: isinstance,
+        field reads -- a method call on it leaves the subset (the class decides the method)"""
+        v = self._reg(name + '.class', z3.Int(name + '.class'))
+        self.I.assume(z3.And(v >= 0, v < len(classes)))
+        o = SObj(classes[0], False)
+        o.cls_alt = [(c, v == i) for i, c in enumerate(classes)]
+        for k, x in fields.items():
+            o.fields[k] = x
+        return o
+
     def assume(self, cond):
         self.I.assume(self.I.truth(cond))
         return None
@@ -258,6 +269,15 @@ class SymElemFactory:
             o.fields[k] = v
         return o
 
+    def new_any(self, name, classes, fields):
+        v = self._reg(name + '.class', self._var(name + '.class', z3.IntSort()))
+        self.constraints.append(z3.And(v >= 0, v < len(classes)))
+        o = SObj(classes[0], False)
+        o.cls_alt = [(c, v == i) for i, c in enumerate(classes)]
+        for k, x in fields.items():
+            o.fields[k] = x
+        return o
+
     def assume(self, cond):
         from .interp import zbool
         t = self.I.truth(cond)
@@ -363,6 +383,16 @@ class ConcreteFactory:
             obj = cls(*ctor)
         else:
             obj = cls.__new__(cls)
+        for k, v in fields.items():
+            object.__setattr__(obj, k, v)
+        return obj
+
+    def new_any(self, name, classes, fields):
+        i = self._get(name + '.class', lambda: self.rng.randrange(len(classes)) if self.rng else 0)
+        if not isinstance(i, int) or not (0 <= i < len(classes)):
+            self.rejected = True
+            i = 0
+        obj = classes[i].__new__(classes[i])
         for k, v in fields.items():
             object.__setattr__(obj, k, v)
         return obj
